@@ -154,7 +154,13 @@ where
         reduce_lanes_if_dummy("Public", public_rows <= 1, packing.public_lanes());
 
     let alu_empty = preprocessed.primitive[alu_idx].is_empty();
-    let effective_alu_lanes = reduce_lanes_if_dummy("ALU", alu_empty, packing.alu_lanes());
+    // Same test as the prover (`alu_trace.op_kind.len() <= 1`: the trace of an empty table holds one
+    // dummy operation, so zero and one operation cannot be told apart there): otherwise a circuit
+    // with exactly one ALU operation is prepared with the configured lanes but proven with one,
+    // and the proof carries other verifying data than this function returns.
+    const ALU_PREP_VALUES_PER_OP: usize = 12;
+    let alu_only_dummy = preprocessed.primitive[alu_idx].len() <= ALU_PREP_VALUES_PER_OP;
+    let effective_alu_lanes = reduce_lanes_if_dummy("ALU", alu_only_dummy, packing.alu_lanes());
 
     let w_binomial = ExtF::extract_w();
 
